@@ -22,6 +22,7 @@ func Props() []*harness.Prop {
 	return []*harness.Prop{
 		{ID: "C12", Gen: c12Gen, Exec: c12Exec},
 		{ID: "C13", Gen: c13Gen, Exec: c13Exec},
+		{ID: "C15", Gen: c15Gen, Exec: c15Exec},
 	}
 }
 
@@ -164,7 +165,7 @@ func (e *env) violate(class, sig, format string, a ...any) {
 	}
 }
 
-const storeID = "01HVERIFSTORE00000000000001"
+const storeID = "01HVXR1FST0RE0000000000001"
 
 func setup(t *testing.T, sc *gen.Scenario, trace bool, out *harness.Outcome) *env {
 	run := simrt.Begin(simrt.Config{Seed: sc.RunSeed, Mode: int(sc.Knob("delay_mode", 0)), Trace: trace})
